@@ -15,7 +15,8 @@ EXPLANATION = (
     'short-cut (no selector subclass overrides wait); the byte count from the selector reaches recv_into together with '
     'the session buffer; buffer size and requested maximum are the same constant; after a non-empty read the loop '
     'cannot return to the wait without iterating feed(); no sleep on the loop path; zero-length payloads are never '
-    'awaited as reads; the receive path does not take the write lock; replies are issued in the same iteration.')
+    'awaited as reads; the receive path does not take the write lock; replies are issued in the same iteration.'
+    ' Also decided: package-wide isolation (objects created once per class or per function definition - class-level attributes, parameter defaults - are only read), so that no buffer, validator, cache, lock or option table is shared between connections by accident.')
 NOT_DECIDED = 'latency, TLS record alignment, bursts over real sockets, kernel readiness semantics'
 ASSUMPTIONS = ['ssl.SSLSocket.pending() reports decrypted buffered bytes', 'poll()/select()/kqueue report readability level-triggered']
 
